@@ -156,7 +156,15 @@ class ProblemRec:
                        "value": "raised:" + type(ex).__name__, "holder_value": "raised:" + type(ex).__name__, "same_holder": True,
                        "raised": type(ex).__name__, "reuse": bool(reuse)})
             return None
-        self.emit({"op": "eval", "inst": inst, "fid": str(fid), "p": qv(before), "p_after": qv(pt.floatVariables),
-                   "value": q(float(r.value)), "holder_value": q(float(fv.value)), "same_holder": r is fv, "raised": "none",
+        try:
+            val, hval, after = q(float(r.value)), q(float(fv.value)), qv(pt.floatVariables)
+        except (ValueError, TypeError, AttributeError) as ex:
+            # a non-finite or non-numeric value / point after the call: an outcome (clause EvalRaises), not a crash of the recorder
+            self.emit({"op": "eval", "inst": inst, "fid": str(fid), "p": qv(before), "p_after": qv(before),
+                       "value": "raised:NonFinite", "holder_value": "raised:NonFinite", "same_holder": True,
+                       "raised": "NonFinite:" + type(ex).__name__, "reuse": bool(reuse)})
+            return None
+        self.emit({"op": "eval", "inst": inst, "fid": str(fid), "p": qv(before), "p_after": after,
+                   "value": val, "holder_value": hval, "same_holder": r is fv, "raised": "none",
                    "reuse": bool(reuse)})
         return float(r.value)
